@@ -74,12 +74,19 @@ class Lock:
 
 def coq_make(targets, timeout=2400):
     """Build the given .vo targets (and what they depend on). Returns (ok, log)."""
+    # The lock covers only the shared part (project file + Base/); component files are disjoint
+    # between properties, so their builds may overlap.
     with Lock("coq"):
         rc, out = sh("./mkproject.sh", cwd=COQ, timeout=120)
         if rc != 0:
             return False, out
-        rc, out = sh(["make", "-j16"] + targets, cwd=COQ, timeout=timeout)
-        return rc == 0, out
+        base = [f[:-2] + ".vo" for f in sorted(glob.glob(os.path.join(COQ, "Base", "*.v")))]
+        base = [os.path.relpath(f, COQ) for f in base]
+        rc, out = sh(["make", "-j16"] + base, cwd=COQ, timeout=timeout)
+        if rc != 0:
+            return False, out
+    rc, out = sh(["make", "-j8"] + targets, cwd=COQ, timeout=timeout)
+    return rc == 0, out
 
 
 def props_check(props_file):
@@ -88,8 +95,13 @@ def props_check(props_file):
     theorems = re.findall(r"^\s*(?:Theorem|Lemma)\s+(\w+)", src, re.M)
     examples = re.findall(r"^\s*Example\s+(\w+)", src, re.M)
     prints = re.findall(r"^\s*Print Assumptions\s+(\w+)", src, re.M)
-    with Lock("coq"):
-        rc, out = sh(["coqc", "-Q", ".", "Verif", "-w", "-notation-overridden", props_file], cwd=COQ, timeout=900)
+    # compile a copy so that the build tree's .vo is not rewritten while other checks read it
+    tmpd = os.path.join(WORK, "props-" + os.path.basename(props_file)[:-2] + "-%d" % os.getpid())
+    os.makedirs(tmpd, exist_ok=True)
+    tmpf = os.path.join(tmpd, "PropsCopy.v")
+    shutil.copy(os.path.join(COQ, props_file), tmpf)
+    rc, out = sh(["coqc", "-Q", COQ, "Verif", "-w", "-notation-overridden", tmpf], cwd=tmpd, timeout=900)
+    shutil.rmtree(tmpd, ignore_errors=True)
     closed = out.count("Closed under the global context")
     axioms = []
     if "Axioms:" in out:
@@ -100,6 +112,19 @@ def props_check(props_file):
     return {"ok": rc == 0 and closed == len(prints) and not bad and not forbidden and not axioms,
             "rc": rc, "theorems": theorems, "examples": examples, "closed": closed, "prints": len(prints),
             "axioms": axioms, "unprinted": bad, "forbidden": forbidden, "log": out[-4000:]}
+
+
+def coqchk(props_file, timeout=3000):
+    """Independent re-check of the compiled Props module and everything it depends on (thorough tier)."""
+    mod = "Verif." + props_file[:-2].replace("/", ".")
+    rc, out = sh(["coqchk", "-silent", "-o", "-Q", ".", "Verif", mod], cwd=COQ, timeout=timeout)
+    m = re.search(r"\* Axioms:(.*?)\n\s*\n\* Constants", out, re.S)
+    axioms = m.group(1).strip() if m else "?"
+    ok = rc == 0 and axioms == "<none>" and all(
+        re.search(r"\* %s: <none>" % re.escape(k), out) for k in
+        ["Constants/Inductives relying on type-in-type", "Constants/Inductives relying on unsafe (co)fixpoints",
+         "Inductives whose positivity is assumed"])
+    return {"ok": ok, "rc": rc, "axioms": axioms, "tail": out[-1200:]}
 
 
 def strip_comments(s):
@@ -304,6 +329,11 @@ def standard_check(ctx, spec):
         bad = audit_sources(vo_deps(spec["props"]))
         if bad:
             cause.append("theorem:forbidden-constructs " + ", ".join(bad))
+    chk = None
+    if ok and pc and pc["ok"] and ctx.tier == "thorough" and not ctx.replay and not os.environ.get("VERIF_NO_COQCHK"):
+        chk = coqchk(spec["props"])
+        if not chk["ok"]:
+            cause.append("theorem:coqchk (rc=%d axioms=%s)" % (chk["rc"], chk["axioms"]))
     # the model/check files must build even when a proof is broken
     model_ok = ok
     if not ok and spec.get("check_vo"):
@@ -415,6 +445,7 @@ def standard_check(ctx, spec):
         "trusted_base": TRUSTED_COMMON + spec.get("trusted_extra", []),
         "theorems": pc["theorems"] if pc else [], "examples": pc["examples"] if pc else [],
         "print_assumptions_closed": pc["closed"] if pc else 0, "axioms": pc["axioms"] if pc else [],
+        "coqchk": ({"ran": True, "ok": chk["ok"], "axioms": chk["axioms"]} if chk else {"ran": False, "why": "thorough tier only"}),
         "evaluations": evaluations, "distinct_nontrivial": distinct,
         "rule": spec.get("rule", "one case = one generated history run on the real code and on the Model; distinct = distinct Coq case terms"),
         "traces_validated_against_impl": evaluations,
